@@ -20,7 +20,7 @@ func registerC18() {
 		Rule: "PRNG streams of record / lap / session / segment_lap / event messages under every file type hosting them (Activity, Course, ActivitySummary, Segment) with " +
 			"component sources forced on the wire (all-ones, high-bit, PRNG patterns, rollovers of accumulated sources, destinations also on the wire), 1-3 files per case decoded " +
 			"back to back and once more as a chain; every field of every message is compared with the reference component rules (ref/components.go, accumulators zero at the start " +
-			"of each file); deviations are matched against one predictor of the listed defective behaviour, anything else is a violation; non-trivial: at least one component " +
+			"of each file); deviations are matched against one predictor of the listed defective behaviour, anything else is a violation; every file is also decoded with a wrong CRC, without its CRC bytes, or with a trailing record of an undefined local type: the File returned with the error is judged like the intact one; non-trivial: at least one component " +
 			"expansion was compared; distinct by stream digest",
 		Assume: []string{
 			"enhanced_speed is not compared when compressed_speed_distance expands in the same record (speed is then both a destination and a source; the statement does not say which wins)",
